@@ -131,7 +131,7 @@ Example tree_side_on_outline_only_if_hyps_sat :   (* same box and points as tree
 Proof.
   split; [cbn; lra|]. split; [reflexivity|]. split.
   - split; [right; cbn; lra|cbn; lra].
-  - left. cbn. repeat split; try lra. right. lra.
+  - left. cbn. repeat split; lra.
 Qed.
 
 Theorem snap_tree_refuted : exists b p r,
